@@ -410,19 +410,42 @@ def build_parts(spec):
     return content.encode('utf-8'), styles.encode('utf-8')
 
 
+# how the package lists and stores its parts (office suites differ): (order of the manifest entries, order of the zip members)
+LAYOUTS = [
+    (['/', 'content.xml', 'styles.xml'], ['content.xml', 'styles.xml']),
+    (['/', 'styles.xml', 'content.xml'], ['content.xml', 'styles.xml']),
+    (['/', 'content.xml', 'styles.xml'], ['styles.xml', 'content.xml']),
+    (['/', 'styles.xml', 'content.xml'], ['styles.xml', 'content.xml']),
+    (['/', 'styles.xml', 'meta.xml', 'settings.xml', 'content.xml'], ['meta.xml', 'styles.xml', 'settings.xml', 'content.xml']),
+    (['/', 'content.xml', 'settings.xml', 'meta.xml', 'styles.xml'], ['styles.xml', 'content.xml', 'settings.xml', 'meta.xml']),
+    (['styles.xml', 'content.xml', '/'], ['content.xml', 'styles.xml']),
+    (['settings.xml', 'styles.xml', 'content.xml', 'meta.xml', '/'], ['settings.xml', 'styles.xml', 'meta.xml', 'content.xml']),
+]
+META_XML = ('<?xml version="1.0" encoding="UTF-8"?>\n<office:document-meta %s office:version="1.2"><office:meta>'
+            '<meta:generator>c11</meta:generator></office:meta></office:document-meta>' % XMLNS).encode('utf-8')
+SETTINGS_XML = ('<?xml version="1.0" encoding="UTF-8"?>\n<office:document-settings %s office:version="1.2"><office:settings/>'
+                '</office:document-settings>' % XMLNS).encode('utf-8')
+
+
 def build_package(spec):
     content, styles = build_parts(spec)
-    manifest = ('<?xml version="1.0" encoding="UTF-8"?>\n<manifest:manifest xmlns:manifest="%s" manifest:version="1.2">'
-                '<manifest:file-entry manifest:full-path="/" manifest:version="1.2" manifest:media-type="%s"/>'
-                '<manifest:file-entry manifest:full-path="content.xml" manifest:media-type="text/xml"/>'
-                '<manifest:file-entry manifest:full-path="styles.xml" manifest:media-type="text/xml"/>'
-                '</manifest:manifest>' % (NS['manifest'], MIME)).encode('utf-8')
+    morder, zorder = LAYOUTS[spec.get('layout', 0)]
+    entry = {'/': '<manifest:file-entry manifest:full-path="/" manifest:version="1.2" manifest:media-type="%s"/>' % MIME}
+    for n in ('content.xml', 'styles.xml', 'meta.xml', 'settings.xml'):
+        entry[n] = '<manifest:file-entry manifest:full-path="%s" manifest:media-type="text/xml"/>' % n
+    manifest = ('<?xml version="1.0" encoding="UTF-8"?>\n<manifest:manifest xmlns:manifest="%s" manifest:version="1.2">%s'
+                '</manifest:manifest>' % (NS['manifest'], ''.join(entry[n] for n in morder))).encode('utf-8')
+    data = {'content.xml': content, 'styles.xml': styles, 'meta.xml': META_XML, 'settings.xml': SETTINGS_XML}
     buf = io.BytesIO()
     z = zipfile.ZipFile(buf, 'w')
     z.writestr(zipfile.ZipInfo('mimetype'), MIME.encode('ascii'))
-    z.writestr('META-INF/manifest.xml', manifest, zipfile.ZIP_DEFLATED)
-    z.writestr('content.xml', content, zipfile.ZIP_DEFLATED)
-    z.writestr('styles.xml', styles, zipfile.ZIP_DEFLATED)
+    late = spec.get('layout', 0) % 2 == 1          # the manifest member first or last in the archive
+    if not late:
+        z.writestr('META-INF/manifest.xml', manifest, zipfile.ZIP_DEFLATED)
+    for n in zorder:
+        z.writestr(n, data[n], zipfile.ZIP_DEFLATED)
+    if late:
+        z.writestr('META-INF/manifest.xml', manifest, zipfile.ZIP_DEFLATED)
     z.close()
     return buf.getvalue(), content, styles
 
@@ -699,7 +722,7 @@ def direct_cells(H):
         for attr, hosts in H[region].items():
             for host in hosts:
                 pairs.setdefault((attr, host), set()).add(region)
-    nmode = [0]
+    nmode = [0]; nlay = [0]
     for (attr, host) in sorted(pairs):
         cls = target_class(attr, host)
         if cls is None:
@@ -720,6 +743,8 @@ def direct_cells(H):
                 for mc, ms in modes:
                     name = COLLIDING_NAME[kind]
                     spec = empty_spec()
+                    nlay[0] += 1
+                    spec['layout'] = nlay[0] % len(LAYOUTS)
                     spec['cauto'].append(sdef(kind, name, 'A', mm=mc))
                     spec['sauto'].append(sdef(kind, name, 'B', mm=ms))
                     controls(spec, attr, host, kind, regions)
@@ -728,7 +753,7 @@ def direct_cells(H):
                     if placement in ('master', 'both'):
                         spec['master'].append(site('m1', attr, host, name))
                     yield spec, {'block': 'direct', 'kind': kind, 'attr': attr, 'host': host, 'placement': placement,
-                                 'differ': '%s/%s' % (mc, ms)}
+                                 'differ': '%s/%s' % (mc, ms), 'layout': spec['layout']}
 
 
 def internal_cells():
@@ -786,6 +811,29 @@ def mname_cells(X, kind, host, only=None):
                 X, ['M' * k + X for k in cextra], ['M' * k + X for k in sextra], X, order)}
 
 
+LAYOUT_CASES = [('graphic', 'draw:style-name', 'draw:frame'), ('table', 'table:style-name', 'table:table'),
+                ('presentation', 'presentation:style-name', 'draw:frame'), ('paragraph', 'text:style-name', 'text:p'),
+                ('text', 'text:style-name', 'text:span'), ('date-style', 'style:data-style-name', 'text:date'),
+                ('list-style', 'text:style-name', 'text:list'), ('page-layout', 'style:page-layout-name', 'style:master-page')]
+
+
+def layout_cells():
+    """every way of listing / storing the parts, for one cell per column of the matrix, name referenced from both"""
+    for kind, attr, host in LAYOUT_CASES:
+        for lay in range(len(LAYOUTS)):
+            name = COLLIDING_NAME[kind]
+            spec = empty_spec()
+            spec['layout'] = lay
+            spec['cauto'].append(sdef(kind, name, 'A')); spec['sauto'].append(sdef(kind, name, 'B', mm='child'))
+            both = host != 'style:master-page'
+            controls(spec, attr, host, kind, ('master', 'body') if both else ('master',))
+            if both:
+                spec['body'].append(site('b1', attr, host, name))
+            spec['master'].append(site('m1', attr, host, name))
+            yield spec, {'block': 'direct', 'kind': kind, 'attr': attr, 'host': host,
+                         'placement': 'both' if both else 'master', 'layout': lay}
+
+
 def special_cells():
     # fixed cases for the ways two definitions of one name can differ: P1 and T1 in both parts, referenced from body and header
     for mc, ms in MARKER_MODES:
@@ -835,6 +883,8 @@ def all_cells(H):
     for c in direct_cells(H):
         yield c
     for c in internal_cells():
+        yield c
+    for c in layout_cells():
         yield c
     for c in special_cells():
         yield c
@@ -927,7 +977,8 @@ def gen_random(rng, DP):
             for d in extra[part]:
                 spec[part].append(d)          # (relative order inside the configuration is what matters)
         spec['body'] += extra['body']; spec['master'] += extra['master']
-    return spec, {'block': 'random', 'collisions': ncoll, 'kinds': kinds, 'mnames': mcfg}
+    spec['layout'] = rng.randrange(len(LAYOUTS))
+    return spec, {'block': 'random', 'collisions': ncoll, 'kinds': kinds, 'mnames': mcfg, 'layout': spec['layout']}
 
 
 # ------------------------------------------------------------------ correspondence with the model (drv_clash)
@@ -1031,6 +1082,8 @@ def run_case(chk, spec, info, T, loader, lines, pending):
     chk.count('block_' + info['block'])
     if 'placement' in info:
         chk.count('placement_' + info['placement'])
+    if 'layout' in info:
+        chk.count('layout_%d' % info['layout'])
     if 'differ' in info:
         chk.count('definitions_differ_' + info['differ'])
     for k, v in sorted(stats.items()):
